@@ -55,7 +55,13 @@ static Result guarded(const std::shared_ptr<Deck>& deck, const std::map<Tree::Id
         close(fd[0]);
         alarm((unsigned)timeout_s + 5);        // belt and braces; the parent kills earlier
         forceRoundNearest();
-        JacobianEvaluator e(deck, vars);
+        // The evaluator handed to findRoot holds OTHER variable values than the ones passed in `vars`
+        // (an evaluator reused from an earlier solve): the evaluator overload must load every initial
+        // value, masked ones included, before it iterates; the parent recomputes the residual with the
+        // caller's values.
+        std::map<Tree::Id, float> stale;
+        for (auto& v : vars) stale[v.first] = v.second * 0.5f + 0.75f;
+        JacobianEvaluator e(deck, stale);
         auto res = Solver::findRoot(e, deck->tape, vars, pos, mask, gas);
         std::vector<char> buf;
         auto put = [&](const void* p, size_t n) { buf.insert(buf.end(), (const char*)p, (const char*)p + n); };
